@@ -64,6 +64,8 @@ class MemSocket:
             s.point("recv")
         if self.closed:
             raise OSError(errno.EBADF, "Bad file descriptor (mem)")
+        if n == 0:
+            return b""
         if not self.readable():
             if s is not None:
                 ok = s.block(self.readable, tmode=("idle" if self.timeout else None), what="recv %s" % self.name)
